@@ -601,13 +601,41 @@ def gen_step(rng, depth, npred_max=2):
     test = gen_test(rng, axis)
     abbr = axis in ('child', 'attribute') and rng.random() < 0.6 and not (axis == 'attribute' and test == 'node')
     e = ['s', axis, test, abbr]
-    npred = 0 if depth <= 0 else rng.choice([0, 0, 0, 1] if depth == 1 else [0, 0, 0, 1, 1, 2])
+    npred = 0 if depth <= 0 else rng.choice([0, 0, 0, 1] if depth == 1 else [0, 0, 0, 0, 1, 1, 1, 2, 2, 3, 4])
     for _ in range(npred):
         e = ['p', e, gen_pred(rng, depth - 1)]
     return e
 
 
+def gen_stacked_step(rng):
+    """a step with 2..4 stacked predicates, positional ones at every level, mostly-true filters in between so
+    that several nodes survive - on reverse and forward axes (round-4 seeded change: the walk through ALL
+    stacked `[` tokens down to the step)"""
+    axis = rng.choice(['ancestor', 'ancestor-or-self', 'preceding', 'preceding-sibling'] * 3 +
+                      ['child', 'descendant', 'following', 'following-sibling', 'descendant-or-self'])
+    test = rng.choice(['any', 'any', 'node', 'node', 'q::x'])
+    e = ['s', axis, test, axis == 'child' and rng.random() < 0.5]
+    keep_all = [['c'], ['s', 'self', 'node', False], ['cmp', 'gt', ['pos'], ['n', 0]], ['cmp', 'ge', ['last'], ['n', 1]],
+                ['not', ['s', 'child', 'q::zz', True]], ['cmp', 'eq', ['count', ['c']], ['n', 1]]]
+    positional = [['n', 1], ['n', 1], ['n', 2], ['last'], ['cmp', 'lt', ['pos'], ['n', 3]], ['cmp', 'gt', ['pos'], ['n', 1]],
+                  ['cmp', 'ne', ['pos'], ['last']], ['n', 3], ['lit', 0, 20]]
+    k = rng.choice([2, 3, 3, 3, 4, 4])
+    for j in range(k):
+        last = j == k - 1
+        r = rng.random()
+        if last or r < 0.35:
+            e = ['p', e, rng.choice(positional)]
+        elif r < 0.85:
+            e = ['p', e, rng.choice(keep_all)]
+        else:
+            e = ['p', e, gen_simple_rel(rng)]
+    return e
+
+
 def gen_stepish(rng, depth):
+    r = rng.random()
+    if r < 0.08 and depth >= 1:
+        return gen_stacked_step(rng)
     r = rng.random()
     if r < 0.06:
         return ['c']
@@ -1269,6 +1297,10 @@ CORPUS_EXPR = [
     (T4, ['ds', ['dr', S('child', 'q::x', True)], S('child', 'q::x', True)]),
     (T3, ['dr', ['p', S('child', 'any', True), ['and', S('attribute', 'q::k', True), ['not', S('child', 'q::zz', True)]]]]),
     (T3, ['r0']),
+    (T3, ['sl', ['dr', S('child', 'q::f', True)], ['p', ['p', ['p', S('ancestor', 'any'), ['c']], ['c']], ['n', 1]]]),          # //f/ancestor::*[.][.][1]
+    (T3, ['sl', ['dr', S('child', 'q::f', True)], ['p', ['p', ['p', ['p', S('ancestor-or-self', 'any'), ['c']], ['cmp', 'gt', ['pos'], ['n', 1]]], ['c']], ['n', 1]]]),
+    (T3, ['sl', ['dr', S('child', 'q::f', True)], ['p', ['p', ['p', S('preceding', 'node'), ['c']], ['c']], ['last']]]),
+    (T3, ['dr', ['p', ['p', ['p', S('child', 'any', True), ['c']], ['c']], ['n', 2]]]),                                          # //*[.][.][2]
     (T3, ['dr', ['p', S('child', 'any', True), ['n', 0]]]),                                                    # //*[0]
     (T3, ['p', ['g', ['dr', S('child', 'any', True)]], ['n', 0, 1]]),                                           # (//*)[00]
     (T3, ['sl', ['dr', S('child', 'q::a', True)], ['p', S('child', 'text', True), ['n', 0]]]),                # //a/text()[0]
@@ -1458,6 +1490,14 @@ def search_exprs():
         yield s
         yield ['dr', s]
         yield ['r', s]
+    for ax in ('ancestor', 'ancestor-or-self', 'preceding', 'preceding-sibling', 'child', 'following'):
+        for last in (['n', 1], ['n', 2], ['last']):
+            for depth3 in (2, 3):
+                st_ = S(ax, 'any')
+                for _ in range(depth3):
+                    st_ = ['p', st_, ['c']]
+                yield ['sl', ['dr', S('child', 'any', True)], ['p', st_, last]]
+                yield ['p', st_, last]
     heads = [['dr', S('child', 'q::x', True)], ['dr', S('child', 'any', True)], ['dr', S('child', 'node', True)],
              ['dr', S('attribute', 'any', True)], ['dr', S('child', 'text', True)]]
     for h in heads:
